@@ -1113,9 +1113,32 @@ def _from_iter(ex, args, f):
     return VecV(out)
 
 
+class EnumIter:
+    def __init__(self, inner):
+        self.inner = inner
+        self.i = 0
+
+
 @intr("<_ as Iterator>::enumerate")
 def _enumerate(ex, args, f):
-    raise Unsupported("enumerate")
+    return EnumIter(deref_all(ex, args[0]))
+
+
+@intr("<_ as Iterator>::next")
+def _next8(ex, args, f, _prev=I["<_ as Iterator>::next"]):
+    it = deref_all(ex, args[0])
+    if isinstance(it, EnumIter):
+        x = _iter_next(ex, it.inner, f)
+        if x.variant == "None":
+            return NONE
+        it.i += 1
+        return some(Tup([usize(it.i - 1), x.fields[0]]))
+    return _prev(ex, args, f)
+
+
+@intr("Vec::into_iter", "<Vec<T> as IntoIterator>::into_iter")
+def _vec_into_iter(ex, args, f):
+    return I["<_ as IntoIterator>::into_iter"](ex, args, f)
 
 
 def _bits_retain(ex, args, f):
@@ -1126,3 +1149,309 @@ def _bits_retain(ex, args, f):
 for _fl in ("DependencyFlags", "FileFlags", "ScriptletFlags", "FileVerifyFlags"):
     I["constants::_::<impl constants::%s>::from_bits_retain" % _fl] = _bits_retain
     I["constants::_::<impl %s>::from_bits_retain" % _fl] = _bits_retain
+
+
+@intr("core::slice::<impl [T]>::binary_search_by_key", "core::slice::<impl [T]>::binary_search_by", "core::slice::<impl [T]>::binary_search")
+def _binary_search(ex, args, f):
+    """std's binary search over a slice with concrete length; the comparison results are decided by forking"""
+    items = items_of(ex, args[0])
+    r0 = args[0]
+    base, _ = (r0, None)
+    from intrinsics2 import container_ref
+    cref, cont = container_ref(ex, r0)
+
+    def cmp_at(i):
+        el = Ref(cref.cell, cref.proj + (("idx", i),))
+        if f.rstrip().endswith("binary_search_by_key") or "binary_search_by_key" in f:
+            key = deref_all(ex, args[1])
+            k = ex.call_closure(deref_all(ex, args[2]), [el])
+            lt = (k.e < key.e) if k.signed else z3.ULT(k.e, key.e)
+            if ex.decide(lt):
+                return "Less"
+            return "Equal" if ex.decide(k.e == key.e) else "Greater"
+        if "binary_search_by" in f:
+            return ex.call_closure(deref_all(ex, args[1]), [el]).variant
+        key = deref_all(ex, args[1])
+        v = deref_all(ex, el)
+        lt = (v.e < key.e) if v.signed else z3.ULT(v.e, key.e)
+        if ex.decide(lt):
+            return "Less"
+        return "Equal" if ex.decide(v.e == key.e) else "Greater"
+    # the algorithm of core::slice::binary_search_by (size halving)
+    size = len(items)
+    if size == 0:
+        return err(usize(0))
+    base_i = 0
+    while size > 1:
+        half = size // 2
+        mid = base_i + half
+        c = cmp_at(mid)
+        base_i = base_i if c == "Greater" else mid
+        size -= half
+    c = cmp_at(base_i)
+    if c == "Equal":
+        return ok(usize(base_i))
+    return err(usize(base_i + (1 if c == "Less" else 0)))
+
+
+# ---- file system boundary (C12) -------------------------------------------------------------------------------------------------
+# Every call is recorded.  The model keeps the one piece of state containment depends on: which paths below the (freshly created, hence
+# empty) target are symbolic links made by this extraction.  Calls succeed or fail arbitrarily; `exists` answers arbitrarily;
+# `symlink_metadata` answers from the model (everything below a fresh target was put there by this run).
+class FsLog:
+    def __init__(self, target=b"/t"):
+        self.ops = []          # (operation, path bytes, extra)
+        self.links = []        # live symbolic links: resolved component lists
+        self.target = [[z3.BitVecVal(c, 8) for c in comp] for comp in bytes(target).split(b"/") if comp]
+        self.violations = []   # (operation, path bytes, reason)
+        self.nq = 0
+
+    def rec(self, op, ex, p, extra=None):
+        self.ops.append((op, list(_path_bytes(ex, p)), extra))
+
+    @staticmethod
+    def same_comp(ex, a, b):
+        return len(a) == len(b) and ex.decide(z3.And([x == y for x, y in zip(a, b)] + [z3.BoolVal(True)]))
+
+    def same(self, ex, A, B):
+        return len(A) == len(B) and all(self.same_comp(ex, a, b) for a, b in zip(A, B))
+
+    def walk(self, ex, p):
+        """kernel-style resolution of an absolute path, component by component, against the model's links:
+        returns (resolved components, leads through a live link, final component is a live link, relative)"""
+        p = list(p)
+        comps = path_components(ex, p)
+        if not comps or comps[0][0] != "Root":
+            return [], False, False, True
+        stack, through = [], False
+        last = len(comps) - 1
+        for i, (k, s, e) in enumerate(comps):
+            if k == "Normal":
+                stack.append(p[s:e])
+                if i != last and any(self.same(ex, stack, l) for l in self.links):
+                    through = True
+            elif k == "Parent" and stack:
+                stack.pop()
+        final = any(self.same(ex, stack, l) for l in self.links)
+        return stack, through, final, False
+
+    def classify(self, ex, p):
+        """'inside' (strictly below the target), 'target', 'ancestor' (an existing directory above the target) or 'outside'"""
+        stack, through, final, rel = self.walk(ex, p)
+        t = self.target
+        if rel:
+            where = "outside"
+        elif len(stack) >= len(t) and self.same(ex, stack[:len(t)], t):
+            where = "target" if len(stack) == len(t) else "inside"
+        elif len(stack) < len(t) and self.same(ex, stack, t[:len(stack)]):
+            where = "ancestor"
+        else:
+            where = "outside"
+        return where, stack, through, final
+
+    def check(self, ex, op, p, follows_final):
+        """containment of one mutating call.  Returns where the path lies so that the caller can make calls on the (existing) target
+        directory and its ancestors behave like calls on existing directories."""
+        where, stack, through, final = self.classify(ex, p)
+        if through:
+            self.violations.append((op, list(p), "path leads through a symbolic link created by an earlier entry"))
+        elif where == "outside":
+            self.violations.append((op, list(p), "path names something outside the target directory"))
+        elif where == "ancestor" and op == "set_permissions":
+            self.violations.append((op, list(p), "permissions of a directory above the target are changed"))
+        elif follows_final and final:
+            self.violations.append((op, list(p), "call follows a symbolic link created by an earlier entry"))
+        return where, stack
+
+
+FS = [None]
+
+
+def _fs():
+    if FS[0] is None:
+        raise Unsupported("file system call without a harness-installed FsLog")
+    return FS[0]
+
+
+class FileV:
+    def __init__(self, path):
+        self.path = path
+
+    def write_all(self, ex, data):
+        return ok()
+
+    def write(self, ex, data):
+        return ok(usize(len(data)))
+
+
+# calls that cannot succeed on an existing directory (the target itself, freshly created, and everything above it)
+_FAILS_ON_DIR = ("remove_file", "create_file", "symlink", "create_dir")
+
+
+def _fs_call(ex, op, path_arg, follows_final):
+    fs = _fs()
+    fs.rec(op, ex, path_arg)
+    p = list(_path_bytes(ex, path_arg))
+    first = op == "create_dir" and len(fs.ops) == 1           # extract's own creation of the target
+    where, stack = ("target", fs.target) if first else fs.check(ex, op, p, follows_final)
+    if not first and where in ("target", "ancestor") and op in _FAILS_ON_DIR:
+        return False, stack
+    okv = z3.Bool("fs_%s_%d_ok" % (op, len(fs.ops)))
+    return bool(ex.decide(okv)), stack
+
+
+def _fs_unit(op, follows_final):
+    def g(ex, args, f):
+        fs = _fs()
+        good, stack = _fs_call(ex, op, args[0], follows_final)
+        if not good:
+            return err(Opaque("io::Error(fs)"))
+        if op == "remove_file":
+            fs.links = [l for l in fs.links if not fs.same(ex, stack, l)]
+        return ok()
+    return g
+
+
+for _n, _ff in (("create_dir", False), ("create_dir_all", True), ("remove_file", False), ("remove_dir_all", False), ("set_permissions", True)):
+    I[_n] = _fs_unit(_n, _ff)
+    I["std::fs::" + _n] = _fs_unit(_n, _ff)
+    I["fs::" + _n] = _fs_unit(_n, _ff)
+
+
+@intr("std::fs::File::create", "File::create", "fs::File::create")
+def _file_create(ex, args, f):
+    good, stack = _fs_call(ex, "create_file", args[0], True)
+    return ok(FileV(args[0])) if good else err(Opaque("io::Error(fs)"))
+
+
+@intr("symlink", "std::os::unix::fs::symlink")
+def _symlink(ex, args, f):
+    fs = _fs()
+    good, stack = _fs_call(ex, "symlink", args[1], False)
+    fs.ops[-1] = (fs.ops[-1][0], fs.ops[-1][1], list(_path_bytes(ex, args[0])))
+    if not good:
+        return err(Opaque("io::Error(fs)"))
+    if not any(fs.same(ex, stack, l) for l in fs.links):
+        fs.links.append(stack)
+    return ok()
+
+
+@intr("Path::exists", "std::path::Path::exists")
+def _path_exists(ex, args, f):
+    fs = _fs()
+    fs.nq += 1
+    return Bool(z3.Bool("fs_exists_%d_%d" % (len(fs.ops), fs.nq)))
+
+
+class MetaV:
+    def __init__(self, is_link):
+        self.is_link = is_link
+
+
+@intr("Path::symlink_metadata", "std::path::Path::symlink_metadata")
+def _symlink_metadata(ex, args, f):
+    fs = _fs()
+    p = list(_path_bytes(ex, args[0]))
+    where, stack, through, final = fs.classify(ex, p)
+    if final:
+        return ok(MetaV(True))
+    if where in ("target", "ancestor"):
+        return ok(MetaV(False))
+    fs.nq += 1
+    # not a link made by this run: it may exist (as something else) or not
+    return ok(MetaV(False)) if ex.decide(z3.Bool("fs_lstat_%d_%d" % (len(fs.ops), fs.nq))) else err(Opaque("io::Error(fs)"))
+
+
+@intr("std::fs::Metadata::file_type", "Metadata::file_type")
+def _md_file_type(ex, args, f):
+    return deref_all(ex, args[0])
+
+
+@intr("FileType::is_symlink", "std::fs::FileType::is_symlink", "Metadata::is_symlink")
+def _ft_is_symlink(ex, args, f):
+    return Bool(z3.BoolVal(deref_all(ex, args[0]).is_link))
+
+
+# ---- std::path::Components / PathBuf building --------------------------------------------------------------------------------------
+@intr("Path::components", "std::path::Path::components")
+def _components(ex, args, f):
+    bs = _path_bytes(ex, args[0])
+    out = []
+    for (k, s, e) in path_components(ex, bs):
+        if k == "Normal":
+            out.append(Adt("Component", "Normal", [PathV(bs[s:e])]))
+        else:
+            out.append(Adt("Component", {"Root": "RootDir", "Cur": "CurDir", "Parent": "ParentDir"}[k]))
+    return ValIter(out)
+
+
+@intr("Path::to_path_buf", "std::path::Path::to_path_buf")
+def _to_path_buf(ex, args, f):
+    return PathV(list(_path_bytes(ex, args[0])))
+
+
+@intr("PathBuf::push")
+def _pathbuf_push(ex, args, f):
+    base = deref_all(ex, args[0])
+    joined = _path_join(ex, [base, args[1]], f)
+    base.bs = list(joined.bs)
+    return UNIT
+
+
+@intr("Path::display", "std::path::Path::display")
+def _path_display(ex, args, f):
+    return PathV(list(_path_bytes(ex, args[0])))
+
+
+@intr("<_ as ToString>::to_string")
+def _to_string_path(ex, args, f, _prev=I.get("<_ as ToString>::to_string")):
+    v = deref_all(ex, args[0])
+    if isinstance(v, PathV):
+        return Str(list(v.bs), owned=True)
+    if _prev is None:
+        raise Unsupported("no model for call: %s" % f)
+    return _prev(ex, args, f)
+
+
+@intr("<_ as PermissionsExt>::from_mode")
+def _perm_from_mode(ex, args, f):
+    return Opaque("Permissions", args[0])
+
+
+@intr("<_ as AsRef>::as_ref")
+def _as_ref_path(ex, args, f, _prev=I["<_ as AsRef>::as_ref"]):
+    v = deref_all(ex, args[0])
+    if isinstance(v, PathV):
+        return v
+    if "AsRef<Path>" in f and isinstance(v, Str):
+        return PathV(v.bytes())
+    return _prev(ex, args, f)
+
+
+class ValIter:
+    """iterator that yields the given values (by value)"""
+
+    def __init__(self, vals):
+        self.vals = list(vals)
+
+
+@intr("<_ as Iterator>::next")
+def _next9(ex, args, f, _prev=I["<_ as Iterator>::next"]):
+    it = deref_all(ex, args[0])
+    if isinstance(it, ValIter):
+        return some(it.vals.pop(0)) if it.vals else NONE
+    return _prev(ex, args, f)
+
+
+@intr("<_ as IntoIterator>::into_iter")
+def _into_iter9(ex, args, f, _prev=I["<_ as IntoIterator>::into_iter"]):
+    v = deref_all(ex, args[0])
+    if isinstance(v, ValIter):
+        return v
+    return _prev(ex, args, f)
+
+
+@intr("Arguments::from_str_nonconst", "Arguments::<'_>::from_str_nonconst", "Arguments::from_str", "Arguments::<'_>::from_str")
+def _args_from_str(ex, args, f):
+    # fmt::Arguments built from a plain string piece (messages of panics such as unreachable!("..."))
+    return Opaque("fmt::Arguments", args[0])
